@@ -3,4 +3,5 @@ pub mod build;
 pub mod gen_dag;
 pub mod gen_fusions;
 pub mod model;
+pub mod near_miss;
 pub mod run;
